@@ -205,7 +205,8 @@ func c17Programs(tier string) []*Spec {
 func init() {
 	register(&Family{
 		Property: "C17",
-		Rule: "histories over {create P, create independent Z, create S after P (before P progresses / concurrently with P's progress / after P is gone), create a second successor of P, create T after S, each bar finishing (complete, abort, abort+drop, remove-on-complete, pop mode)} in auto and manual refresh; every schedule within the deviation bound. " +
+		Rule: "also: an external cancel placed anywhere by the explorer (once the predecessor's second final-state frame is out, the closing renders must show the successor), a predecessor dropped with Abort(true) after it was shown; " +
+			"histories over {create P, create independent Z, create S after P (before P progresses / concurrently with P's progress / after P is gone), create a second successor of P, create T after S, each bar finishing (complete, abort, abort+drop, remove-on-complete, pop mode)} in auto and manual refresh; every schedule within the deviation bound. " +
 			"Whether a successor was created after its predecessor's final frame had been flushed, or as a second successor, is observed exactly at run time (a filler middleware runs inside the container goroutine while it executes the Add request) and partitions the executions. " +
 			"Oracle: no frame shows a bar with its predecessor; a predecessor is drawn in its final state at most twice; the successor is never shown before the predecessor's last frame; it takes the predecessor's index in the next frame; every queued bar appears in some frame (auto refresh); Wait and all calls return.",
 		Items: func(tier string) []Item {
